@@ -244,6 +244,48 @@ Section Model.
     mkPs (map (fun u => mkUser (u_name u) (u_adm_ch u) (u_adm_rl u) (Some (user_ch db u)) (Some (user_rl db u))) (ps_users ps))
          (map (fun r => mkRole (r_name r) (r_adm_ch r) (Some (role_ch db r))) (ps_roles ps)).
 
+  (* ---------------------------------------------------------------- principals along a history of writes and loads *)
+  (* MarkPrincipalsChanged: a write that changes what the document grants a principal invalidates that
+     principal's computed CHANNELS (users and roles named by access()), a change of the roles it grants a user
+     invalidates that user's computed ROLES -- the two computed sets are invalidated independently *)
+  Definition chans_of (p : pid) (acc : list grant) : list N := map snd (filter (fun g => pid_eqb (fst g) p) acc).
+  Definition roles_of (u : N) (rls : list rgrant) : list N := map snd (filter (fun g => fst g =? u) rls).
+  Definition doc_access (db : list doc) (id : N) : list grant :=
+    match find (fun d => d_id d =? id) db with Some d => d_access d | None => [] end.
+  Definition doc_roles (db : list doc) (id : N) : list rgrant :=
+    match find (fun d => d_id d =? id) db with Some d => d_roles d | None => [] end.
+  Definition mark (a a' : list grant) (r r' : list rgrant) (ps : princs) : princs :=
+    mkPs (map (fun u => mkUser (u_name u) (u_adm_ch u) (u_adm_rl u)
+                          (if set_eqb N.eqb (chans_of (PU (u_name u)) a) (chans_of (PU (u_name u)) a') then u_ch u else None)
+                          (if set_eqb N.eqb (roles_of (u_name u) r) (roles_of (u_name u) r') then u_rl u else None)) (ps_users ps))
+         (map (fun ro => mkRole (r_name ro) (r_adm_ch ro)
+                          (if set_eqb N.eqb (chans_of (PR (r_name ro)) a) (chans_of (PR (r_name ro)) a') then r_ch ro else None)) (ps_roles ps)).
+
+  (* loading a user (GetUser + its roles): every invalidated computed set it needs is rebuilt and stored *)
+  Definition load_user (db : list doc) (ps : princs) (n : N) : princs :=
+    match find (fun u => u_name u =? n) (ps_users ps) with
+    | None => ps
+    | Some u0 =>
+        let held := user_rl db u0 in
+        mkPs (map (fun u => if u_name u =? n
+                            then mkUser (u_name u) (u_adm_ch u) (u_adm_rl u) (Some (user_ch db u)) (Some (user_rl db u)) else u) (ps_users ps))
+             (map (fun r => if mem N.eqb (r_name r) held then mkRole (r_name r) (r_adm_ch r) (Some (role_ch db r)) else r) (ps_roles ps))
+    end.
+
+  Inductive pop := PWrite (w : wop) | PLoad (user : N).
+
+  Definition pstep (sync : body -> verdict) (st : list doc * princs) (op : pop) : list doc * princs :=
+    let (db, ps) := st in
+    match op with
+    | PWrite w => let db' := put sync db w in
+                  (db', mark (doc_access db (w_doc w)) (doc_access db' (w_doc w)) (doc_roles db (w_doc w)) (doc_roles db' (w_doc w)) ps)
+    | PLoad n => (db, load_user db ps n)
+    end.
+  Definition hist (sync : body -> verdict) (st : list doc * princs) (ops : list pop) : list doc * princs :=
+    fold_left (pstep sync) ops st.
+  Definition writes_of (ops : list pop) : list wop :=
+    flat_map (fun op => match op with PWrite w => [w] | PLoad _ => [] end) ops.
+
   (* ResyncManagerDCP.invalidatePrincipals (resync of all collections).  [ifixed]: Switch.regen_inval_fixed *)
   Definition finish (ifixed regen : bool) (changed : N) (ps : princs) : princs :=
     if regen && negb ifixed then ps                       (* updateAllPrincipalsSequences; return nil *)
@@ -266,3 +308,5 @@ Arguments resync_leaf {body}. Arguments leaf_changed {body}. Arguments resync_do
 Arguments granted {body}. Arguments role_granted {body}. Arguments compute_user_ch {body}. Arguments compute_user_rl {body}.
 Arguments compute_role_ch {body}. Arguments user_ch {body}. Arguments user_rl {body}. Arguments role_ch {body}.
 Arguments effective {body}. Arguments can_see {body}. Arguments visible {body}. Arguments warm {body}. Arguments run {body}.
+Arguments doc_access {body}. Arguments doc_roles {body}. Arguments load_user {body}. Arguments PWrite {body}. Arguments PLoad {body}.
+Arguments pstep {body}. Arguments hist {body}. Arguments writes_of {body}.
